@@ -7,7 +7,8 @@ must not depend on how the stream is segmented`).  Transcribes
 * `src/twisted/protocols/haproxy/_v2parser.py`: `V2Parser.feed`, `V2Parser.parse`,
   `_bytesToIPv4`, `_bytesToIPv6`
 * `src/twisted/protocols/haproxy/_wrapper.py`: `HAProxyProtocolWrapper.dataReceived`,
-  `_mayBecomeHeader`, `getPeer`/`getHost`
+  `_mayBecomeHeader`, `getPeer`/`getHost`; `HAProxyWrappingFactory` serving several connections
+  (`policies.WrappingFactory.buildProtocol`: a fresh wrapper per connection) — `runSched`
 
 Same buffers (`V1Parser.buffer`, `V2Parser.buffer`, `_undecided`), same order of checks, same
 exception classes.  `isIPAddress` (libc `inet_pton`) is a parameter `ok : Bool → Bytes → Bool`
@@ -302,6 +303,24 @@ def step (ok : Bool → Bytes → Bool) (st : State) (data : Bytes) : State :=
 
 /-- a whole connection: the chunks in delivery order -/
 def run (ok : Bool → Bytes → Bool) (segs : List Bytes) : State := segs.foldl (step ok) State.init
+
+/-! ### several connections of one `HAProxyWrappingFactory`
+
+`buildProtocol` gives every connection its own `HAProxyProtocolWrapper` (own `_undecided`, own parser object, own
+`_proxyInfo`); factory, classes and modules hold no state that `dataReceived` reads.  An event `(i, data)` is one
+`dataReceived(data)` on connection `i`; events of different connections interleave in any order. -/
+
+/-- one event applied to the family of connection states -/
+def stepAt (ok : Bool → Bytes → Bool) (f : Nat → State) (ev : Nat × Bytes) : Nat → State :=
+  fun j => if j = ev.1 then step ok (f j) ev.2 else f j
+
+/-- a whole schedule: every connection starts in `State.init` -/
+def runSched (ok : Bool → Bytes → Bool) (evs : List (Nat × Bytes)) : Nat → State :=
+  evs.foldl (stepAt ok) (fun _ => State.init)
+
+/-- the chunks connection `i` received, in order -/
+def chunksOf (i : Nat) (evs : List (Nat × Bytes)) : List Bytes :=
+  (evs.filter (fun e => e.1 = i)).map (·.2)
 
 /-- what `getPeer()` / `getHost()` of the wrapper return: `none` = the transport's own -/
 def State.peer (st : State) : Option Addr := match st.info with | some (some p) => some p.1 | _ => none
